@@ -5,6 +5,7 @@ import (
 	"crypto/sha256"
 	"fmt"
 	"github.com/pokt-network/pocket-core/codec"
+	pc "github.com/pokt-network/pocket-core/x/pocketcore/types"
 	"os"
 	"runtime/debug"
 	"sort"
@@ -51,21 +52,24 @@ type Sim struct {
 	// C22 cumulative model is drv.Cumulative; lifecycle tables
 	life *lifecycle
 
-	simSeconds   float64
-	sched        map[string]int64
-	relayEntropy int64
-	served       map[string]int
-	sessions     map[string]string
-	claims       map[string]*claimInst
-	viewCache    map[int64]*View
-	forged       map[string]string
-	dupEvidence  map[string]bool
-	effective    map[string]bool // "height/index" of deliveries with a non-empty diff
-	addrIdx      map[string]int
-	jailEnd      map[string]time.Time // C25: end of the downtime jail period per node, the simulator's own record
-	jailEdited   map[string]bool      // C25: the node was edit-staked while serving that period
-	replay       bool
-	aborted      bool
+	simSeconds    float64
+	sched         map[string]int64
+	relayEntropy  int64
+	served        map[string]int
+	sessions      map[string]string
+	claims        map[string]*claimInst
+	viewCache     map[int64]*View
+	forged        map[string]string
+	dupEvidence   map[string]bool
+	effective     map[string]bool // "height/index" of deliveries with a non-empty diff
+	addrIdx       map[string]int
+	jailEnd       map[string]time.Time        // C25: end of the downtime jail period per node, the simulator's own record
+	jailEdited    map[string]bool             // C25: the node was edit-staked while serving that period
+	members       map[string]map[string]bool  // session header hash -> addresses seen in its node list (dispatch)
+	memberHeaders map[string]pc.SessionHeader // session header hash -> header
+	outsider      map[string]bool             // claim keys of claims made by nodes outside the session
+	replay        bool
+	aborted       bool
 }
 
 func (s *Sim) violate(prop, oracle, subject, detail string) {
